@@ -229,6 +229,20 @@ func c03Oracle(in []byte, out []byte) (verdict, rule, detail string) {
 	return "violation", "comments-differ", fmt.Sprintf("missing from dst output: %q; extra in dst output: %q", first(missing, 3), first(extra, 3))
 }
 
+// c03Header returns the texts of the line comments before the package keyword.
+func c03Header(toks []obs.Tok) []string {
+	var out []string
+	for _, t := range toks {
+		if t.Tok == token.PACKAGE {
+			break
+		}
+		if t.Tok == token.COMMENT && strings.HasPrefix(t.Lit, "//") {
+			out = append(out, strings.TrimRight(t.Lit, " \t\r"))
+		}
+	}
+	return out
+}
+
 func at(s []string, i int) string {
 	if i < 0 || i >= len(s) {
 		return "<none>"
@@ -468,6 +482,45 @@ func runC03(c *fw.Ctx) {
 					continue
 				}
 				c03CheckVia(c, fmt.Sprintf("tokgap-imports:%s/%d/%d", k, ti, vi), "token-gap-comment+import-management", in, rtImportsManaged)
+			}
+		}
+	}
+	// the comment that opens a file: one or two comment lines in canonical and non-canonical form
+	// (no space after the slashes, extra spaces, empty, block), at column 1 or behind a byte-order
+	// mark / blanks, directly followed by the package clause or separated from it by an empty line.
+	// dst positions these comments so that go/printer does not take them for a doc comment (and so
+	// does not rewrite them): here their texts must be exactly the input's
+	fi := 0
+	for _, head := range []string{"//Package p", "//   indented text", "//", "// canonical", "/*block*/", "/* block\n   two lines */", "//first\n//second", "//go:generate true", "//\n// after an empty comment line", "//x\n\n// second group", "//x\n\n//y"} {
+		for _, prefix := range []string{"", "\xef\xbb\xbf", " ", "\t", "\n"} {
+			for _, sep := range []string{"\n", "\n\n", " "} {
+				i := fi
+				fi++
+				if !c.Mine(i) {
+					continue
+				}
+				if sep == " " && !strings.HasPrefix(head, "/*") {
+					continue
+				}
+				in := []byte(prefix + head + sep + "package p\n\nfunc f() {}\n")
+				if !corpus.Parses(in) {
+					continue
+				}
+				id := fmt.Sprintf("first-line-comment:%d", i)
+				c03Check(c, id, "first-line-comment", in, in)
+				c.Case(id+"/exact", func() {
+					out, err := rtParsePrint(in)
+					if err != nil {
+						return
+					}
+					it, _ := obs.Scan(in)
+					ot, _ := obs.Scan(out)
+					if hi, ho := c03Header(it), c03Header(ot); !eqStrings(hi, ho) {
+						c.Violate("header-comment-rewritten", "header-comment-rewritten", fmt.Sprintf("%s: line comments above the package clause: input %q, dst output %q", id, hi, ho), string(in))
+						return
+					}
+					c.Count("header_comments_exact", 1)
+				})
 			}
 		}
 	}
